@@ -66,6 +66,11 @@ def run(ctx):
                 p = rng.choice(ps)
                 l = 'tlwe %d %s %d %s' % (opc, base, p, both)
                 for b in ('optim', 'debug'): cases.append((l, l, b, ('tlwe', opc, k, N, p, c1, c2)))
+            for opc in (20, 21, 121, 22, 23, 24, 25, 26):
+                p = rng.choice(ps + [rng.randrange(-2**31, 2**31)])
+                l = 'tlwe %d %s %d %s' % (opc, base, p, both)
+                ml = l if opc != 121 else l.replace('tlwe 121', 'tlwe 21', 1)
+                cases.append((l, ml, 'optim', ('tlweop', opc, k, N, p, c1, c2)))
             for a in sorted({0, 1, N - 1, N, N + 1, 2 * N - 1, rng.randrange(2 * N)}):
                 l = 'tlwe 4 %s %d %s' % (base, a, both)
                 cases.append((l, l, 'optim', ('tlwe', 4, k, N, a, c1, c2)))
@@ -154,6 +159,17 @@ def oracle(meta, o):
         f = {0: lambda x, y: x + y, 1: lambda x, y: x - y, 2: lambda x, y: x + pw * y, 3: lambda x, y: x - pw * y}[opc]
         exp = [vlib.w32(f(x, y)) for x, y in zip(c1, c2)]
         if vals != exp: return 'TLWE coefficient-wise result differs from the exact one'
+    elif kind == 'tlweop':
+        _, opc, k, N, p, c1, c2 = meta
+        pw = vlib.w32(p); exp = list(c1)
+        if opc == 20: exp = [0] * ((k + 1) * N)
+        elif opc == 22: exp = [0] * (k * N) + c2[k * N:]
+        elif opc in (23, 24):
+            pos = (k if opc == 23 else 0) * N; exp[pos] = vlib.w32(exp[pos] + pw)
+        elif opc in (25, 26):
+            pos = (k if opc == 25 else 0) * N
+            for j in range(N): exp[pos + j] = vlib.w32(exp[pos + j] + c2[j] * pw)
+        if vals != exp: return 'TLWE operation %d differs from its definition (clear / copy / trivial / add constant / add polynomial times constant)' % opc
     elif kind == 'tlwe' and meta[1] == 4:
         _, opc, k, N, a, c1, c2 = meta
         exp = []
